@@ -379,7 +379,7 @@ fn run_conc_check(context: &CheckContext, mut outcome: CheckOutcome) -> CheckOut
     for campaign in conc_campaigns(&context.property) {
         let cases = if thorough { campaign.cases_thorough } else { campaign.cases_quick };
         let repeats = if thorough { 6 } else { 3 };
-        let stall = std::time::Duration::from_secs(if thorough { 30 } else { 10 });
+        let stall = std::time::Duration::from_secs(if thorough { 60 } else { 15 });
         let property = context.property.clone();
         let nt = campaign.nt;
         let failing_history: std::sync::Arc<std::sync::Mutex<std::collections::HashMap<u64, History>>> = std::sync::Arc::new(std::sync::Mutex::new(std::collections::HashMap::new()));
